@@ -12,7 +12,7 @@ func TestC34(t *testing.T) {
 	r := kit.Start(t, "C34", "exploration")
 	defer r.Finish()
 	r.Rule("random node-governance histories (register/unregister/approve/quit/black/white/commit by owners, validators, outsiders; heights advancing, " +
-		"double commits in one block, commits without operator when due) over pools 4..maxN, a quarter of them with hostile key spellings " +
+		"double commits in one block, commits without operator when due) over pools 4..maxN whose genesis peer indices are contiguous, gapped, offset, unordered or large and whose MaxBlockChangeView is 100, 1, 2 or 1000, a quarter of them with hostile key spellings " +
 		"(upper/mixed-case hex, uncompressed encoding of the same key) in every node operation; plus nine directed spelling scenarios. After EVERY operation: " +
 		">= 4 distinct active keys, no key (compared as decoded public key) in two entries, distinct keys <-> distinct indices, no successful registration of a blacklisted key; " +
 		"at every view change: view+1, active -> consensus, quitting/black dropped, not twice at one height; pool == model pool. Distinct = (op kind, success, epoch, pool size, generator tag) and approval fingerprints")
@@ -31,9 +31,13 @@ func TestC34(t *testing.T) {
 	r.Require("register_of_non_blacklisted_ok", r.N(200, 3000))
 	r.Require("failed@registerCandidate", r.N(50, 700))
 	r.Require("calls_with_variant_spelling", r.N(200, 3000))
+	for _, sh := range []string{"contiguous", "gapped", "offset", "unordered", "large"} {
+		r.Require("histories_with_genesis_indices_"+sh, r.N(20, 300))
+	}
 	r.Require("hostile_histories", r.N(60, 900))
 	r.Assume("identity of a public key = the key decoded by the ontology-crypto codec (so hex case and compressed/uncompressed encodings spell the same key)")
 	r.Assume("'blacklisted' = a blacklisting took effect for the key and no white-listing since; in histories with hostile spellings the blacklist record observed in contract storage (under any spelling of the key) is used")
 	r.Assume("an epoch change is also accepted as part of a blackNode that blacklists a consensus member (poly commits immediately); any other operation changing the view is flagged")
+	r.Assume("genesis peer indices stay at least 1000 below 2^32 (initConfig accepts 2^32-1, after which the next candidate index wraps to 0; an operator-chosen genesis, not explored)")
 	r.Assume("index stability (same key gets its old index back) is not demanded")
 }
